@@ -49,7 +49,7 @@ def load_known_findings():
     if os.path.exists(path):
         for line in open(path):
             line = line.strip()
-            if line and not line.startswith("#"):
+            if line.startswith("{"):
                 out.append(json.loads(line))
     return out
 
